@@ -494,10 +494,13 @@ class WSStream:
                 headers=[(b"content-length", b"0"), (b"connection", b"close")],
             )
         )
-        await self.send(EndBody(stream_id=self.stream_id))
         if was_closed or not self.closed:
-            # Otherwise closed whilst sending, which has been logged
+            # Otherwise closed whilst sending, which has been logged.
+            # (Before the end of the response, with which the stream
+            # is closed and what has not been logged is taken for a
+            # request without a response.)
             await self._log_access({"status": status_code, "headers": []})
+        await self.send(EndBody(stream_id=self.stream_id))
 
     async def _log_access(self, response: Optional[dict]) -> None:
         # Exactly one record per request, whichever path gets here first
@@ -565,8 +568,9 @@ class WSStream:
             await self.send(Body(stream_id=self.stream_id, data=bytes(message.get("body", b""))))
         if not message.get("more_body", False):
             self.state = ASGIWebsocketState.HTTPCLOSED
+            if not self.closed:
+                await self._log_access(self.response)  # (As above)
             await self.send(EndBody(stream_id=self.stream_id))
-            await self._log_access(self.response)
 
     async def _send_pongs(self) -> None:
         try:
